@@ -32,12 +32,12 @@ NONE = 99
 
 FAMILIES = ["relus_clips", "min_max", "no_op", "dropout", "cast_cos", "scatter_static", "scatter_dynamic", "expand_binop", "materialize",
             "collapse_slices", "casts", "no_op_expand", "reshape_reshape", "flatten", "slice_split", "transposes", "unsqueeze2",
-            "squeeze_reshape", "matmul_reshape"]
+            "squeeze_reshape", "matmul_reshape", "matmul_add_gemm", "gemm_matmul_add", "optional_bias"]
 MY_DEVS = ["relu_clip_negmax", "clip_clip_disjoint", "relu_clip_no_dtype_raise", "scatter_symbolic_raise",
            "scatter_static_ignores_reduction", "cast_cos_overflow", "const_tolerance", "overridable_read_as_const",
            "minmax_clip_rank", "clip_inputs_pre_opset11", "expand_rank_extension", "expand_binop_drops_attrs",
            "materialize_allowzero", "slice_split_odd", "split_num_outputs_pre_opset18", "flatten_zero_dim",
-           "reshape_matmul_ignores_inner_shapes"]
+           "reshape_matmul_ignores_inner_shapes", "matmul_add_gemm_bias_shape", "gemm_matmul_add_ignores_attrs", "gemm_matmul_add_bias_shape"]
 SCALE = {"no_op": 1000, "cast_cos": 10}
 
 NP = {"f32": np.float32, "f16": np.float16, "f64": np.float64, "i64": np.int64, "i32": np.int32, "u8": np.uint8, "bool": np.bool_}
@@ -315,6 +315,75 @@ def build_scatter_dynamic(p, osh, aux):
     return h, [m.no_op_dynamic_scatter_nd_rule]
 
 
+def build_matmul_add_gemm(p, osh, aux):
+    from onnxscript.rewriter.rules.common import _matmul_add_to_gemm as m
+
+    h = Host()
+    ash, bsh, cs = list(aux["ashape"]), list(aux["bshape"]), list(p["cs"])
+    h.inp("a", "f32", np.arange(1, int(np.prod(ash)) + 1, dtype=np.float32).reshape(ash), shape=from_decl(aux["ad"]))
+    h.inp("b", "f32", (2 * np.arange(1, int(np.prod(bsh)) + 1, dtype=np.float32) - 5).reshape(bsh), shape=from_decl(aux["bd"]))
+    h.inp("c", "f32", (10 * np.arange(1, int(np.prod(cs)) + 1, dtype=np.float32)).reshape(cs))
+    pattrs = {"10": {"perm": [1, 0]}, "absent": {}, "01": {"perm": [0, 1]}}[p["perm"]]
+    a, b = "a", "b"
+    if p["rule"] in ("ta", "tab"):
+        h.node("Transpose", ["a"], ["at"], **pattrs)
+        a = "at"
+    if p["rule"] in ("tb", "tab"):
+        h.node("Transpose", ["b"], ["bt"], **pattrs)
+        b = "bt"
+    h.node("MatMul", [a, b], ["mm"])
+    h.node("Add", ["c", "mm"] if p["cleft"] else ["mm", "c"], ["y"])
+    h.out("y", "f32", [None] * len(osh))
+    if p["extra"]:
+        h.node("Neg", ["mm"], ["y2"])
+        h.out("y2", "f32", [None, None])
+    rule = {"plain": m.matmul_add_to_gemm_rule, "ta": m.transpose_a_matmul_add_to_gemm_rule,
+            "tb": m.transpose_b_matmul_add_to_gemm_rule, "tab": m.transpose_ab_matmul_add_to_gemm_rule}[p["rule"]]
+    return h, [rule]
+
+
+def build_gemm_matmul_add(p, osh, aux):
+    from onnxscript.rewriter.rules.common import _gemm_to_matmul_add as m
+
+    h = Host()
+    ash, bsh, cs = list(p["as"]), list(aux["bshape"]), list(p["cs"])
+    h.inp("a", "f32", np.arange(1, int(np.prod(ash)) + 1, dtype=np.float32).reshape(ash))
+    h.inp("b", "f32", (2 * np.arange(1, int(np.prod(bsh)) + 1, dtype=np.float32) - 5).reshape(bsh))
+    h.inp("c", "f32", (10 * np.arange(1, int(np.prod(cs)) + 1, dtype=np.float32)).reshape(cs))
+    h.operand("sa", "init", "i64", np.array(p["sa"], dtype=np.int64))
+    h.operand("sc", "init", "i64", np.array(p["sc"], dtype=np.int64))
+    h.node("Reshape", ["a", "sa"], ["ra"])
+    attrs = {}
+    for k, name, conv in (("alpha", "alpha", float), ("beta", "beta", float), ("ta", "transA", int), ("tb", "transB", int)):
+        if p[k] != NONE:
+            attrs[name] = conv(p[k])
+    h.node("Gemm", ["ra", "b", "c"], ["g"], **attrs)
+    h.node("Reshape", ["g", "sc"], ["y"])
+    h.out("y", "f32", [None] * len(osh))
+    return h, [m.gemm_to_matmul_add_rule]
+
+
+def build_optional_bias(p, osh, aux):
+    from onnxscript.rewriter.rules.common import _remove_optional_bias as m
+
+    h = Host()
+    bias = np.array([0, 0] if p["bias"] == "zero" else [0, 5], dtype=np.float32)
+    if p["op"] == "Gemm":
+        h.inp("x", "f32", np.array([1, 2, 3, 4], dtype=np.float32).reshape(2, 2))
+        h.operand("w", "init", "f32", np.array([1, -1, 2, 3], dtype=np.float32).reshape(2, 2))
+        attrs = {"transB": 1} if p["tb"] else {}
+        rule = m.remove_optional_bias_from_gemm_rule
+    else:
+        h.inp("x", "f32", np.arange(1, 7, dtype=np.float32).reshape(1, 2, 3))
+        h.operand("w", "init", "f32", np.array([1, -1, 2, 3], dtype=np.float32).reshape(2, 2, 1))
+        attrs = {"strides": [1]} if p["tb"] else {}
+        rule = m.remove_optional_bias_from_conv_rule if p["op"] == "Conv" else m.remove_optional_bias_from_conv_transpose_rule
+    h.operand("bias", p["bkind"], "f32", bias, alt=np.array([1, 1], dtype=np.float32))
+    h.node(p["op"], ["x", "w", "bias"], ["y"], **attrs)
+    h.out("y", "f32", list(osh))
+    return h, [rule]
+
+
 def sy_name(code):
     return SYMS.get(code)
 
@@ -584,7 +653,8 @@ BUILDERS = {"relus_clips": build_relus_clips, "min_max": build_min_max, "no_op":
             "materialize": build_materialize, "collapse_slices": build_collapse_slices, "casts": build_casts,
             "no_op_expand": build_no_op_expand, "reshape_reshape": build_reshape_reshape, "flatten": build_flatten,
             "slice_split": build_slice_split, "transposes": build_transposes, "unsqueeze2": build_unsqueeze2,
-            "squeeze_reshape": build_squeeze_reshape, "matmul_reshape": build_matmul_reshape}
+            "squeeze_reshape": build_squeeze_reshape, "matmul_reshape": build_matmul_reshape, "matmul_add_gemm": build_matmul_add_gemm,
+            "gemm_matmul_add": build_gemm_matmul_add, "optional_bias": build_optional_bias}
 
 
 # ------------------------------------------------------------------ observation
@@ -824,7 +894,9 @@ def judge(ctx, c, ob, stats):
             what = f"outputs differ (feed #{d.get('feed')}): before {d.get('before')} after {d.get('after')}"
     if what is not None:
         finding = None
-        if predicted_bad(c) and c["why"] and fired == bool(I["fired"]) and raised == bool(I["raised"]):
+        # a known finding explains the failure only if the code did exactly what the implementation model (with the
+        # named deviations) says it does on this tuple; anything else is a new violation
+        if predicted_bad(c) and c["why"] and not mism:
             finding = pick_finding(c)
         ctx.report(case, f"{fam} {json.dumps(p, sort_keys=True)}: {what}", finding=finding)
         stats["bad"] += 1
